@@ -30,22 +30,29 @@ vars == <<act, shareId, userId, out, cbs, inres, obs>>
 IoChan == 1003
 
 States == {"WaitDemandActive", "WaitSync", "WaitCoop", "WaitGranted", "WaitFontMap", "Active"}
-Letters == {"DA", "SYNC", "COOP", "GRANTED", "CTLOTHER", "FONTMAP", "ERRINFO", "UNKDATA", "DEACT", "FPBMP", "FPOTHER"}
+Letters == {"DA", "SYNC", "COOP", "GRANTED", "CTLOTHER", "FONTMAP", "ERRINFO", "UNKDATA", "DEACT", "FPBMP", "FPOTHER",
+            "ULT", "OFFCHAN"}    \* session level: disconnect-provider ultimatum; a PDU on another channel than the I/O channel
 
 (***************************************************************************)
 (* Abstract server messages (what WireServer!DecServer returns).           *)
 (***************************************************************************)
 HasBitmapUpdate(m) == \E k \in 1..Len(m.updates) : m.updates[k].t = "Bitmap"
 
+\* a slow-path PDU addressed to another MCS channel than the I/O channel is not for the activation automaton,
+\* whatever it contains (mcs::Client::read / RdpClient::read refuse it)
+OffChannel(m) == "channel" \in DOMAIN m /\ m.channel # IoChan
+
 Letter(m) ==
-  CASE m.kind = "DemandActive"  -> "DA"
-    [] m.kind = "Sync"          -> "SYNC"
-    [] m.kind = "Control"       -> (IF m.action = 4 THEN "COOP" ELSE IF m.action = 2 THEN "GRANTED" ELSE "CTLOTHER")
-    [] m.kind = "FontMap"       -> "FONTMAP"
-    [] m.kind = "ErrInfo"       -> "ERRINFO"
-    [] m.kind = "UnknownData"   -> "UNKDATA"
-    [] m.kind = "DeactivateAll" -> "DEACT"
-    [] m.kind = "FastPath"      -> (IF HasBitmapUpdate(m) THEN "FPBMP" ELSE "FPOTHER")
+  CASE m.kind = "SrvUltimatum"  -> "ULT"
+    [] m.kind # "SrvUltimatum" /\ OffChannel(m) -> "OFFCHAN"
+    [] ~OffChannel(m) /\ m.kind = "DemandActive"  -> "DA"
+    [] ~OffChannel(m) /\ m.kind = "Sync"          -> "SYNC"
+    [] ~OffChannel(m) /\ m.kind = "Control"       -> (IF m.action = 4 THEN "COOP" ELSE IF m.action = 2 THEN "GRANTED" ELSE "CTLOTHER")
+    [] ~OffChannel(m) /\ m.kind = "FontMap"       -> "FONTMAP"
+    [] ~OffChannel(m) /\ m.kind = "ErrInfo"       -> "ERRINFO"
+    [] ~OffChannel(m) /\ m.kind = "UnknownData"   -> "UNKDATA"
+    [] ~OffChannel(m) /\ m.kind = "DeactivateAll" -> "DEACT"
+    [] ~OffChannel(m) /\ m.kind = "FastPath"      -> (IF HasBitmapUpdate(m) THEN "FPBMP" ELSE "FPOTHER")
 
 (***************************************************************************)
 (* Client messages, as projections of what WireClient!DecClient returns.   *)
@@ -137,6 +144,23 @@ Srv(m) ==
      \/ /\ ~Expected(act, l) /\ l # "DEACT"     \* everything else is ignored: no output, no delivery, no move
         /\ UNCHANGED <<act, shareId>> /\ Quiet /\ obs' = ObsNext(obs, l)
 
+\* Several share control PDUs in one MCS user data, received in the active state (global::Client::read_data_pdu
+\* walks the whole payload).  Class covered: slow-path PDUs only, and no demand-active after a deactivate-all of the
+\* same train - on this class looking at every element in turn is exactly the sequential semantics of Srv, so the
+\* window must close on a deactivate-all WHEREVER it stands in the train.  Outside the class the implementation
+\* deviates from the sequential semantics (named deviations, not generated: a train received during the handshake
+\* is read up to its first PDU only; a demand-active that follows a deactivate-all in the same train is not answered).
+TrainLetters == {"DA", "SYNC", "COOP", "GRANTED", "CTLOTHER", "FONTMAP", "ERRINFO", "UNKDATA", "DEACT"}
+TrainClass(ms) == /\ Len(ms) >= 2
+                  /\ \A k \in 1..Len(ms) : Letter(ms[k]) \in TrainLetters
+                  /\ \A j, k \in 1..Len(ms) : (j < k /\ Letter(ms[j]) = "DEACT") => Letter(ms[k]) # "DA"
+SrvTrain(ms) ==
+  /\ act = "Active" /\ TrainClass(ms)
+  /\ inres' = "none" /\ UNCHANGED <<userId, shareId>> /\ Quiet
+  /\ IF \E k \in 1..Len(ms) : Letter(ms[k]) = "DEACT"
+     THEN act' = "WaitDemandActive" /\ obs' = [stage |-> "da", open |-> FALSE]
+     ELSE UNCHANGED <<act, obs>>
+
 \* one call of RdpClient::write (lenient = FALSE) or try_write (lenient = TRUE)
 Input(e, lenient) ==
   /\ UNCHANGED <<act, shareId, userId, obs>> /\ cbs' = <<>>
@@ -162,13 +186,17 @@ ModelMsgs ==
   \cup { [kind |-> "Control", action |-> a] : a \in {1, 2, 3, 4} }
   \cup { [kind |-> "FastPath", updates |-> <<[t |-> "Bitmap"]>>, rects |-> rs] : rs \in RectSeqs }
   \cup { [kind |-> "FastPath", updates |-> <<[t |-> "Other", code |-> 5]>>, rects |-> <<>>] }
+  \cup { [kind |-> "SrvUltimatum"] }
+  \cup { [kind |-> "Sync", channel |-> c] : c \in {1004, 1005} } \cup { [kind |-> "DemandActive", shareId |-> s, channel |-> 1004] : s \in ShareIds }
 
 ModelInputs ==
        { [t |-> "ptr", x |-> x, y |-> y, b |-> b, down |-> d] : x \in Coords, y \in Coords, b \in 0..3, d \in BOOLEAN }
   \cup { [t |-> "key", code |-> c, down |-> d] : c \in Coords, d \in BOOLEAN }
   \cup { [t |-> "bmp"] }
 
+ModelTrains == { <<a, b>> : a, b \in { m \in ModelMsgs : m.kind \in {"Sync", "ErrInfo", "DeactivateAll", "DemandActive"} /\ ~OffChannel(m) } }
 Next == \/ \E m \in ModelMsgs : Srv(m)
+        \/ \E ms \in ModelTrains : SrvTrain(ms)
         \/ \E e \in ModelInputs, len \in BOOLEAN : Input(e, len)
         \/ Shutdown
 
